@@ -158,13 +158,13 @@ SPEC = {
                   "argument, argument repainted, painted name re-invoked, name before a vanished macro, empty argument next to "
                   "##) and replayed on the real code. ## : one paste step replaces l ws* ## ws* r by one token spelled l+r "
                   "(paste_is_single_token); which joined spellings are one token agrees with the lexer model of C10 "
-                  "(identifiers universally, the 49 operator pairs exhaustively, keyword tables). Scope of definitions: the list "
+                  "(identifiers and decimal numbers universally, the 49 operator pairs exhaustively, keyword tables). Scope of definitions: the list "
                   "never holds two entries of a name, lookup = latest #define not followed by #undef, a directive takes effect "
                   "from its line; API defines = #define lines before the first line (every entry file); #include = the file's "
                   "lines between two block boundaries (empty file: one line end); a #pragma once file contributes once. PARTIAL: "
                   "(a) ## is not inside the refinement class; (b) invocations completed by the text after the end of an "
                   "expansion are excluded from the class (universal statement for the model: trailing_function_name_is_invoked; "
-                  "agreement with C on witnesses only); (c) numbers pasted with numbers vs the lexer: correspondence only. The "
+                  "agreement with C on witnesses only). The "
                   "correspondence run checks on every generated program that lies in the class (driver op C12.tame) that the real "
                   "preprocessor equals the harness's independent reference preprocessor.",
     "rule": "requests = (API define list, include graph of files given line by line as token lists); the harness renders the "
